@@ -201,7 +201,8 @@ BENIGN_WORDS = ("alpha beta gamma delta lorem ipsum dolor sit amet hello world c
                 "… œuvre €5 wait… ½ ™ ñ ¡hola! abcdefghijklmnopqrstuvwxyz ABCDEFGHIJKLMNOPQRSTUVWXYZ012345 "
                 "]]> <![CDATA[ <!-- İstanbul ß ٣ ² 007 - {} {1} \\N").split(" ")
 # deliberately absent: other formats' markers ("-->", "WEBVTT", "<sami", "</tt>", "{1}{2}", the Scenarist header) as the
-# property says, "|" (MicroDVD's line separator: a cue made of nothing else is an empty cue - cue structure is C03's subject), and characters that str.splitlines() treats as line boundaries (VT, FF, FS-RS, NEL, LS, PS): how written
+# property says, whitespace-only text nodes (a blank line inside a cue is the cue separator of SRT and WebVTT: on the unchanged tree
+# SRT output with such a line is already unreadable - cue structure is C03's subject), "|" (MicroDVD's line separator: a cue made of nothing else is an empty cue - cue structure is C03's subject), and characters that str.splitlines() treats as line boundaries (VT, FF, FS-RS, NEL, LS, PS): how written
 # text survives a parser is C03's subject
 
 
